@@ -88,6 +88,9 @@ func c17(r *Report) propMeta {
 	r.Dominated("total-saved-before-deactivate", wd, CallEff("Keeper.SetTunnel"), CallEff("Keeper.DeactivateTunnel"))
 	r.MustPassWhen("deactivation-not-skippable", wd)
 
+	r.Rule("C17.R6", "store-key agreement: every point read/delete addresses a written key family")
+	r.StoreKeyAgreement("store-keys", "tunnel", 7, nil)
+
 	return propMeta{
 		Decided: []string{
 			"R1 every tunnel msgServer method whose request carries Creator+TunnelID (5 today, new ones checked automatically) gates every keeper write by msg.Creator == GetTunnel(msg.TunnelID).Creator",
@@ -95,6 +98,7 @@ func c17(r *Report) propMeta {
 			"R3 ActivateTunnel writes only if TotalDeposit.IsAllGTE(MinDeposit); msg Activate only for inactive tunnels",
 			"R4 IsActive=true and SetActiveTunnelID occur once each on every success path of ActivateTunnel and nowhere else; IsActive=false and DeleteActiveTunnelID likewise in DeactivateTunnel; end-block iterates the index",
 			"R5 WithdrawFromTunnel deactivates exactly under IsActive && !postWithdrawTotal.IsAllGTE(MinDeposit), after the new total was saved",
+			"R6 every KV-store Get/Has/Delete of x/tunnel uses a key builder of x/tunnel/types that some Set of the module also uses (a probe of an iteration prefix or of a sibling family is always-empty state)",
 		},
 		Undecided: []string{"equality of the three ledgers (records, total, module balance) over histories"},
 		Assume:    []string{"msg handlers atomic", "bank Send* all-or-nothing"},
